@@ -140,6 +140,34 @@ impl<'tcx> Cx<'tcx> {
                 }
             }
         }
+        // `&<int>` constants (promoteds such as `&0`): read the pointee
+        if val == "null" {
+            if let ty::Ref(_, inner, _) = t.kind() {
+                if matches!(inner.kind(), ty::Int(_) | ty::Uint(_) | ty::Bool) {
+                    let env = TypingEnv::post_analysis(tcx, body.source.def_id());
+                    if let Ok(mir::ConstValue::Scalar(rustc_middle::mir::interpret::Scalar::Ptr(ptr, _))) = c.const_.eval(tcx, env, c.span) {
+                        let (prov, off) = ptr.into_raw_parts();
+                        if let Some(rustc_middle::mir::interpret::GlobalAlloc::Memory(alloc)) = tcx.try_get_global_alloc(prov.alloc_id()) {
+                            if let Ok(layout) = tcx.layout_of(env.as_query_input(*inner)) {
+                                let size = layout.size.bytes() as usize;
+                                let start = off.bytes() as usize;
+                                let a = alloc.inner();
+                                if start + size <= a.len() {
+                                    let bytes = a.inspect_with_uninit_and_ptr_outside_interpreter(start..start + size);
+                                    let mut v: u128 = 0;
+                                    for (i, b) in bytes.iter().enumerate() { v |= (*b as u128) << (8 * i); }
+                                    if matches!(inner.kind(), ty::Int(_)) {
+                                        let sh = 128 - 8 * size as u32;
+                                        let sv = ((v << sh) as i128) >> sh;
+                                        val = format!("\"{}\"", sv);
+                                    } else { val = format!("\"{}\"", v); }
+                                }
+                            }
+                        }
+                    }
+                }
+            }
+        }
         let mut stat = "null".to_string();
         if let mir::Const::Val(mir::ConstValue::Scalar(rustc_middle::mir::interpret::Scalar::Ptr(ptr, _)), _) = c.const_ {
             if let Some(rustc_middle::mir::interpret::GlobalAlloc::Static(d)) = tcx.try_get_global_alloc(ptr.provenance.alloc_id()) {
